@@ -203,7 +203,7 @@ rr_cb(void *ctx_, void *it)
                 uint16_t ty = c->t->rr_type(it);
                 if (ty == 1 || ty == 28) {
                     uint8_t *addr = arena + PAD;
-                    size_t   len  = 16;
+                    size_t   len  = 200; /* capacity of a (larger) caller buffer: the call must set the length */
                     size_t   want = ty == 1 ? 4 : 16;
                     memset(arena, CANARY, sizeof arena);
                     c->t->rr_ip(it, addr, &len);
